@@ -39,6 +39,9 @@ pub enum Alter {
     Ad,
     /// bytes appended after the tag (the key and nonce stay right, the body is still the plaintext's)
     Extend(u8),
+    /// the message is cut so that only k (0..=15) bytes of the encrypted payload field remain
+    /// (earlier fields, e.g. an encrypted static key, stay whole)
+    CutPayloadField(u8),
 }
 
 #[derive(Clone, Debug, Serialize, Deserialize)]
@@ -99,6 +102,9 @@ fn oracle(c: &Case, acc: &mut Acc) -> CaseResult {
             msg.pop();
         },
         Alter::Ad => {},
+        Alter::CutPayloadField(k) => {
+            msg.truncate(payload_off + (k as usize % 16));
+        },
         Alter::Extend(n) => {
             if msg.len() + (n as usize % 40) + 1 <= 65535 {
                 msg.extend(std::iter::repeat(0x3c).take(n as usize % 40 + 1));
@@ -273,7 +279,7 @@ pub fn run(ctx: &Ctx) {
                 continue;
             }
             for path in paths() {
-                for alter in [Alter::TagBit(0), Alter::TagBit(127), Alter::BodyByte(0), Alter::BodyByte(31), Alter::DropLast, Alter::Ad, Alter::Extend(0), Alter::Extend(16)] {
+                for alter in [Alter::TagBit(0), Alter::TagBit(127), Alter::BodyByte(0), Alter::BodyByte(31), Alter::DropLast, Alter::Ad, Alter::Extend(0), Alter::Extend(16), Alter::CutPayloadField(0), Alter::CutPayloadField(15)] {
                     for bufsize in 0..6u8 {
                         k += 1;
                         if ctx.tier.pick((k + suite_idx as u64) % 2 != 0, false) {
@@ -295,7 +301,7 @@ pub fn run(ctx: &Ctx) {
         ctx.tier.pick(20_000, 300_000),
         || {
             let ps = paths();
-            let alter = prop_oneof![3 => any::<u8>().prop_map(Alter::TagBit), 3 => any::<u16>().prop_map(Alter::BodyByte), 1 => Just(Alter::DropLast), 1 => Just(Alter::Ad), 1 => any::<u8>().prop_map(Alter::Extend)];
+            let alter = prop_oneof![3 => any::<u8>().prop_map(Alter::TagBit), 3 => any::<u16>().prop_map(Alter::BodyByte), 1 => Just(Alter::DropLast), 1 => Just(Alter::Ad), 1 => any::<u8>().prop_map(Alter::Extend), 1 => any::<u8>().prop_map(Alter::CutPayloadField)];
             (0usize..10, 0usize..24, any::<bool>(), prop_oneof![2 => 8usize..32, 6 => 32usize..4097, 2 => 4097usize..65000, 1 => Just(32767usize), 1 => Just(32768usize), 1 => Just(65000usize)], alter, 0u8..6, any::<u64>()).prop_map(move |(p, suite_idx, ring, plen, alter, bufsize, seed)| Case {
                 path: ps[p].clone(),
                 suite_idx,
